@@ -162,6 +162,115 @@ def r01a(run):
               necessity="values of unknown types would be accepted unchecked under the default options")
 
 
+# ---- R01e: with subclasses admitted, the *requested* class builds the result ---------------------------------------
+
+FINAL_CLASSES = {"bool", "type(None)", "NoneType"}       # cannot be subclassed: a literal of the class is the class
+SELF_TYPED_METHODS = {"replace"}                         # datetime/date/time.replace keep the receiver's class (3.8+)
+
+
+def typed_by_request(fa: FuncAnalysis, n: Node, e, T: str, final: bool, depth=0) -> Tuple[bool, str]:
+    """the expression evaluates to an instance of the requested class `T` (the converter's type parameter), judged from
+    its shape: built by T / a classmethod of T / a delegated conversion given T, or guarded by isinstance(., T)"""
+    if depth > 6 or e is None:
+        return False, "too deep"
+    if isinstance(e, ast.IfExp):
+        a, wa = typed_by_request(fa, n, e.body, T, final, depth + 1)
+        if not a and isinstance(e.test, ast.Call) and call_name(e.test) == "isinstance" and len(e.test.args) == 2 \
+                and unparse(e.test.args[0]) == unparse(e.body) and unparse(e.test.args[1]) == T:
+            a = True
+        b, wb = typed_by_request(fa, n, e.orelse, T, final, depth + 1)
+        return a and b, wa if not a else wb
+    if isinstance(e, ast.Constant):
+        return (final, "a literal" if not final else "")
+    if isinstance(e, ast.Call):
+        fn = e.func
+        if isinstance(fn, ast.Name) and fn.id == T:
+            return True, ""
+        if isinstance(fn, ast.Attribute):
+            if isinstance(fn.value, ast.Name) and fn.value.id == T:
+                return True, ""                                      # classmethod of the requested class
+            if fn.attr in SELF_TYPED_METHODS:
+                return typed_by_request(fa, n, fn.value, T, final, depth + 1)
+        if is_convert_call(fa, n, e) or (isinstance(fn, ast.Attribute) and isinstance(fn.value, ast.Name)
+                                         and fn.value.id == "self" and fn.attr.startswith("to_")):
+            targ = convert_type_arg(e)
+            if targ is not None and unparse(targ) == T:
+                return True, ""
+            return False, f"`{unparse(e)[:50]}` converts to a fixed class, not to `{T}`"
+        return False, f"`{unparse(e)[:50]}` is not built by `{T}`"
+    if isinstance(e, ast.Subscript):
+        root = e.value
+        while isinstance(root, ast.Attribute):
+            root = root.value
+        if isinstance(root, ast.Name) and root.id == T:
+            return True, ""                                          # t.__members__[name]
+        return False, f"`{unparse(e)[:50]}` is not built by `{T}`"
+    if isinstance(e, ast.Name):
+        for a, p in fa.facts.atoms_at(n):
+            if p and isinstance(a, ast.Call) and call_name(a) == "isinstance" and len(a.args) == 2 \
+                    and unparse(a.args[0]) == e.id and unparse(a.args[1]) == T:
+                return True, ""
+            if p and isinstance(a, ast.Compare) and len(a.ops) == 1 and isinstance(a.ops[0], ast.Eq) \
+                    and unparse(a.left) == f"type({e.id})" and unparse(a.comparators[0]) == T:
+                return True, ""
+        defs = fa.rd.defs_of(n, e.id)
+        if not defs:
+            return False, f"`{e.id}` has no definition"
+        for d in defs:
+            if d is fa.cfg.entry:
+                return False, f"`{e.id}` is the unguarded input"
+            if d.kind == "stmt" and isinstance(d.ast, ast.Assign) and len(d.ast.targets) == 1 \
+                    and isinstance(d.ast.targets[0], ast.Name):
+                ok, why = typed_by_request(fa, d, d.ast.value, T, final, depth + 1)
+                if not ok:
+                    return False, why
+                continue
+            return False, f"`{e.id}` is bound by `{norm_stmt(d.ast)[:40] if d.ast is not None else d.kind}`"
+        return True, ""
+    return False, f"`{unparse(e)[:50]}` is not built by `{T}`"
+
+
+def r01e(run):
+    """a converter registered with subclasses admitted is dispatched for every subclass of its registered classes and is
+    handed that subclass as `t`: a return that is not built by `t` (a literal, `data.time()`, `sign * t(...)` - arithmetic
+    on a subclass instance yields the base class) hands back an instance of the base class, not of the declared type"""
+    total = 0
+    for f, reg in converters(run):
+        classes = reg_classes(reg)
+        allow_sub = kwarg(reg, "allow_subclasses")
+        if isinstance(allow_sub, ast.Constant) and allow_sub.value is False:
+            continue
+        if classes == ["Any"] or not classes:
+            # detector / attribute based registrations (data classes) build through their own parser: R01d, C05
+            continue
+        final = all(c in FINAL_CLASSES for c in classes)
+        fa = analysis(f)
+        if len(f.params) < 3:
+            continue
+        data, T = f.params[1], f.params[2]
+        for n in fa.cfg.nodes:
+            if n.kind != "stmt" or not isinstance(n.ast, ast.Return) or not fa.cfg.is_live(n) or n.ast.value is None:
+                continue
+            total += 1
+            ok, why = typed_by_request(fa, n, n.ast.value, T, final)
+            if not ok and final and isinstance(n.ast.value, ast.Call) and unparse(n.ast.value.func) in classes:
+                ok, why = True, "constructor of the (final) registered class"
+            if not ok and any(isinstance(a, ast.Call) and call_name(a) == "getattr" and len(a.args) >= 2
+                              and unparse(a.args[0]) == T and "__abstractmethods__" in unparse(a.args[1]) and p
+                              for a, p in fa.facts.atoms_at(n)):
+                # Sequence / Iterable / Mapping requested as such: the documented fallback hands back the concrete
+                # list / dict, which is an instance of the abstract class
+                ok, why = True, "abstract target: the concrete container is an instance of it"
+            run.check("R01e", f, f"`{norm_stmt(n.ast)[:60]}` is built by the requested class `{T}`", ok,
+                      construct=f"{f.name} returns a value not built by the requested class: {norm_stmt(n.ast)[:60]}",
+                      message=f"converter {f.qualname} is registered for {classes} with subclasses admitted, but "
+                              f"`{norm_stmt(n.ast)[:70]}` does not build its result with the requested class `{T}` ({why})",
+                      necessity="for a declared subclass of the registered class (class Late(time), class Score(int)) the "
+                                "parse hands back an instance of the base class: not an instance of the declared type",
+                      node=n.ast)
+    run.floor("R01e", "returns of subclass-admitting converters", total, 45)
+
+
 def _declared_type_names(fa: FuncAnalysis) -> set:
     """locals handed to a conversion as its target type (the role `value_type` plays, whatever it is called)"""
     cached = getattr(fa, "_c01_type_names", None)
@@ -443,7 +552,7 @@ def r01d(run):
 
 
 def check(run):
-    run.rules_run += ["R01a", "R01b", "R01c", "R01d"]
+    run.rules_run += ["R01a", "R01b", "R01c", "R01d", "R01e"]
     run.explain("C01: (R01a) in every registered converter and in the dispatchers apply/__call__/handle_unresolved a "
                 "return of the (alias of the) input is dominated by a positive type guard against the target type; all "
                 "other returns are constructions, delegated conversions or literals; (R01b) every element / key / value "
@@ -456,6 +565,7 @@ def check(run):
     r01b(run)
     r01c(run)
     r01d(run)
+    r01e(run)
     # a recorded error must reach the context its owner flushes, otherwise the raw value is returned (shared with C10)
     from . import c10
     run.rules_run.append("R10e")
